@@ -226,7 +226,10 @@ GRID_N = (17, 40, 150, 301)
 
 
 def grid_x(N, cplx, salt):
-    return {"kind": "ar", "n": N, "complex": cplx, "seed": 4000 + 17 * N + salt, "pole": [0.7, 1.3]}
+    d = {"kind": "ar", "n": N, "complex": bool(cplx), "seed": 4000 + 17 * N + salt, "pole": [0.7, 1.3]}
+    if cplx == "zi":
+        d["zero_imag"] = True        # complex dtype, imaginary part identically zero: still complex data
+    return d
 
 
 def grid_points(rows=None, lengths=GRID_N):
@@ -235,6 +238,8 @@ def grid_points(rows=None, lengths=GRID_N):
         for N in lengths:
             if N > 150 and row.startswith("mtm_"):
                 continue
-            for cplx in (False, True):
+            for cplx in (False, True, "zi"):
+                if cplx == "zi" and N not in (17, 40):
+                    continue
                 for nfft in sorted({N, N + 3, 2 * N}):
                     yield row, dict(GRID_PARAMS[row]), N, cplx, max(nfft, min_nfft(row, N, GRID_PARAMS[row]))
